@@ -6,255 +6,20 @@ import Dmn.Lemmas.DrgFuel
 /-!
 # Lemmas about requirement graphs: the model against the specification
 
-`Rel g gr sg`: the registries of the model and of the specification give the same closures —
-a decision's on input data that are *compatible* with the names `sup` the specification lets
-them replace.  One level of closures keeps the relation when no knowledge model requires a
-decision service and no input data element is named like a variable (`rel_step`).
+`Rel g gr sg`: the registries of the model and of the specification give the same closures.
+One level of closures keeps the relation (`rel_step`), for every graph: after the repairs of
+findings F14 and F28 no hypothesis is left.
 -/
 
 namespace Dmn.Drg
 
-/-- Every entry of `input` that is named like a variable is one of the parameters `sup`. -/
-def Compatible (g : Drg) (sup : List String) (input : Ctx) : Prop :=
-  ∀ k ∈ g.varNames, sup.contains k = false → Ctx.get input k = none
-
-theorem get_restrict (sup : List String) (input : Ctx) (k : String) :
-    Ctx.get (Spec.restrict sup input) k = if sup.contains k = true then Ctx.get input k else none := by
-  unfold Spec.restrict
-  induction input with
-  | nil =>
-    simp only [List.filter, Ctx.get]
-    split <;> rfl
-  | cons e es ih =>
-    obtain ⟨k0, v0⟩ := e
-    by_cases h0 : sup.contains k0 = true
-    · have hf : List.filter (fun e => sup.contains e.1) ((k0, v0) :: es) =
-          (k0, v0) :: List.filter (fun e => sup.contains e.1) es := by
-        simp only [List.filter, h0]
-      rw [hf]
-      simp only [Ctx.get]
-      by_cases hk : k0 = k
-      · subst hk
-        rw [if_pos rfl, if_pos rfl, if_pos h0]
-      · rw [if_neg hk, if_neg hk]
-        exact ih
-    · have hf : List.filter (fun e => sup.contains e.1) ((k0, v0) :: es) =
-          List.filter (fun e => sup.contains e.1) es := by
-        simp only [List.filter]
-        split
-        · rename_i hh; exact absurd hh h0
-        · rfl
-      rw [hf, ih]
-      simp only [Ctx.get]
-      by_cases hk : k0 = k
-      · subst hk
-        rw [if_neg h0, if_neg h0]
-      · rw [if_neg hk]
-
-theorem overwrite_restrict (g : Drg) (sup : List String) (k3 input : Ctx)
-    (hk : ∀ k ∈ Ctx.keys k3, k ∈ g.varNames) (hc : Compatible g sup input) :
-    Ctx.overwrite k3 input = Ctx.overwrite k3 (Spec.restrict sup input) := by
-  apply overwrite_congr
-  intro k hkk
-  rw [get_restrict]
-  by_cases h : sup.contains k = true
-  · rw [if_pos h]
-  · rw [if_neg h]
-    simp only [Bool.not_eq_true] at h
-    exact hc k (hk k hkk) h
-
-theorem compatible_keys (g : Drg) (input : Ctx) : Compatible g (Ctx.keys input) input := by
-  intro k _ h
-  apply Ctx.get_eq_none_of_not_mem
-  intro hm
-  have : (Ctx.keys input).contains k = true := by
-    simp only [List.contains_eq_mem, decide_eq_true_eq]
-    exact hm
-  rw [this] at h
-  cases h
-
-/-! ## names -/
-
-theorem serviceVarNames_sub (g : Drg) (ids : List String) : ∀ k ∈ g.serviceVarNames ids, k ∈ g.varNames := by
-  intro k hk
-  unfold serviceVarNames at hk
-  obtain ⟨id, _, h⟩ := List.mem_filterMap.mp hk
-  cases hf : g.findService id with
-  | none => simp [hf] at h
-  | some s =>
-    simp [hf] at h
-    subst h
-    unfold varNames
-    exact List.mem_append_right _ (List.mem_map.mpr ⟨s, (findService_some hf).2, rfl⟩)
-
-theorem decisionVarNames_sub (g : Drg) (ids : List String) : ∀ k ∈ g.decisionVarNames ids, k ∈ g.varNames := by
-  intro k hk
-  unfold decisionVarNames at hk
-  obtain ⟨id, _, h⟩ := List.mem_filterMap.mp hk
-  cases hf : g.findDecision id with
-  | none => simp [hf] at h
-  | some d =>
-    simp [hf] at h
-    subst h
-    unfold varNames
-    exact List.mem_append_left _ (List.mem_append_left _ (List.mem_map.mpr ⟨d, (findDecision_some hf).2, rfl⟩))
-
-/-- The names a registry of knowledge model closures writes are variable names. -/
-def OutBound (g : Drg) (dp : Deps) : Prop := ∀ id k, k ∈ dp.bkmOut id → k ∈ g.varNames
-
-theorem outBound_bot (g : Drg) : OutBound g Deps.bot := by
-  intro id k h
-  simp [Deps.bot] at h
-
-theorem outBound_step {g : Drg} {dp : Deps} (h : OutBound g dp) : OutBound g (depsStep g dp) := by
-  intro id k hk
-  simp only [depsStep] at hk
-  cases hf : g.findBkm id with
-  | none => simp [hf] at hk
-  | some b =>
-    rw [hf] at hk
-    simp only [] at hk
-    rcases List.mem_append.mp hk with hk | hk
-    · rcases List.mem_append.mp hk with hk | hk
-      · obtain ⟨x, _, hx⟩ := List.mem_flatMap.mp hk
-        exact h x k hx
-      · exact serviceVarNames_sub g _ k hk
-    · simp only [List.mem_singleton] at hk
-      subst hk
-      unfold varNames
-      exact List.mem_append_left _ (List.mem_append_right _ (List.mem_map.mpr ⟨b, (findBkm_some hf).2, rfl⟩))
-
-theorem outBound_depsAt (g : Drg) (n : Nat) : OutBound g (depsAt g n) := by
-  induction n with
-  | zero => exact outBound_step (outBound_bot g)
-  | succ n ih => exact outBound_step ih
-
-theorem knowledgeNames_sub {g : Drg} {dp : Deps} (h : OutBound g dp) (d : Decision) :
-    ∀ k ∈ knowledgeNames g dp d, k ∈ g.varNames := by
-  intro k hk
-  unfold knowledgeNames at hk
-  rcases List.mem_append.mp hk with hk | hk
-  · rcases List.mem_append.mp hk with hk | hk
-    · obtain ⟨x, _, hx⟩ := List.mem_flatMap.mp hk
-      exact h x k hx
-    · exact serviceVarNames_sub g _ k hk
-  · exact decisionVarNames_sub g _ k hk
-
-/-- The keys of `required_knowledge_ctx`. -/
-theorem required_knowledge_keys {g : Drg} {gr : Graph} {dp : Deps} (hs : Sound g gr dp) (d : Decision)
-    (input k1 k3 : Ctx)
-    (hk1 : foldCtx (fun id c => callBkm g gr id input c) d.reqKnowledge [] = .ok k1)
-    (hk3 : foldCtx (fun id c => dropName (callDecision g gr id input c)) d.reqDecisions
-      (g.serviceFns d.reqKnowledge k1) = .ok k3) :
-    ∀ k ∈ Ctx.keys k3, k ∈ knowledgeNames g dp d := by
-  intro k hk
-  have h3 := foldCtx_keys _ (fun id => g.decisionVarNames [id])
-    (fun id c c' hc => by
-      obtain ⟨n, hn⟩ := dropName_ok hc
-      exact callDecision_keys hs id input c n c' hn)
-    d.reqDecisions _ k3 hk3 k hk
-  unfold knowledgeNames
-  rcases h3 with h3 | h3
-  · rcases serviceFns_keys g d.reqKnowledge k1 k h3 with h2 | h2
-    · have h1 := foldCtx_keys _ dp.bkmOut
-        (fun id c c' hc => callBkm_keys hs id input c c' hc) d.reqKnowledge [] k1 hk1 k h2
-      rcases h1 with h1 | h1
-      · simp [Ctx.keys] at h1
-      · exact List.mem_append_left _ (List.mem_append_left _ h1)
-    · exact List.mem_append_left _ (List.mem_append_right _ h2)
-  · exact List.mem_append_right _ (decisionVarNames_flatMap g _ k h3)
-
-theorem typedInputs_keys (g : Drg) (ids : List String) (input acc : Ctx) :
-    ∀ k ∈ Ctx.keys (g.typedInputs ids input acc), k ∈ Ctx.keys acc ∨ k ∈ g.inputNames ids := by
-  unfold typedInputs
-  induction ids generalizing acc with
-  | nil => intro k hk; exact Or.inl hk
-  | cons id ids ih =>
-    intro k hk
-    simp only [List.foldl_cons] at hk
-    have lift : ∀ k, k ∈ g.inputNames ids → k ∈ g.inputNames (id :: ids) := by
-      intro k hk
-      unfold inputNames at hk ⊢
-      obtain ⟨x, hx, hk⟩ := List.mem_filterMap.mp hk
-      exact List.mem_filterMap.mpr ⟨x, List.mem_cons_of_mem _ hx, hk⟩
-    cases hf : g.findInput id with
-    | none =>
-      rw [hf] at hk
-      rcases ih _ k hk with h | h
-      · exact Or.inl h
-      · exact Or.inr (lift k h)
-    | some i =>
-      rw [hf] at hk
-      rcases ih _ k hk with h | h
-      · rcases keys_set h with h | h
-        · exact Or.inr (h ▸ mem_inputNames List.mem_cons_self hf)
-        · exact Or.inl h
-      · exact Or.inr (lift k h)
-
-theorem foldl_set_keys {α : Type} (vars : List α) (name : α → String) (val : α → Value) (acc : Ctx) :
-    ∀ k ∈ Ctx.keys (vars.foldl (fun c v => Ctx.set c (name v) (val v)) acc),
-      k ∈ Ctx.keys acc ∨ k ∈ vars.map name := by
-  induction vars generalizing acc with
-  | nil => intro k hk; exact Or.inl hk
-  | cons v vars ih =>
-    intro k hk
-    simp only [List.foldl_cons] at hk
-    rcases ih _ k hk with h | h
-    · rcases keys_set h with h | h
-      · exact Or.inr (by simp [h])
-      · exact Or.inl h
-    · exact Or.inr (List.mem_cons_of_mem _ h)
-
-theorem serviceInputs_keys (g : Drg) (s : Service) (results input : Ctx) :
-    ∀ k ∈ Ctx.keys (g.serviceInputs s results input),
-      k ∈ (g.inputDecisionVars s).map Prod.fst ∨ k ∈ g.inputNames s.inputData := by
-  intro k hk
-  unfold serviceInputs at hk
-  simp only [] at hk
-  rcases typedInputs_keys g _ _ _ k hk with h | h
-  · rcases foldl_set_keys (g.inputDecisionVars s) Prod.fst (fun v => v.2.check v.1 input) _ k h with h | h
-    · rcases foldl_set_keys (g.inputDecisionVars s) Prod.fst (fun v => v.2.check v.1 results) _ k h with h | h
-      · simp [Ctx.keys] at h
-      · exact Or.inl h
-    · exact Or.inl h
-  · exact Or.inr h
-
-theorem inputNames_not_var {g : Drg} (hN : g.inputNamesSeparate = true) (ids : List String) (k : String)
-    (hk : k ∈ g.inputNames ids) : k ∉ g.varNames := by
-  unfold inputNames at hk
-  obtain ⟨id, _, h⟩ := List.mem_filterMap.mp hk
-  cases hf : g.findInput id with
-  | none => simp [hf] at h
-  | some i =>
-    simp [hf] at h
-    subst h
-    have hmem : i ∈ g.inputs := (findLast?_some _ _ _ hf).2
-    have := List.all_eq_true.mp hN i hmem
-    simpa using this
-
-theorem compatible_serviceInputs {g : Drg} (hN : g.inputNamesSeparate = true) (s : Service)
-    (results input : Ctx) :
-    Compatible g ((g.inputDecisionVars s).map Prod.fst) (g.serviceInputs s results input) := by
-  intro k hv hsup
-  apply Ctx.get_eq_none_of_not_mem
-  intro hm
-  rcases serviceInputs_keys g s results input k hm with h | h
-  · have : ((g.inputDecisionVars s).map Prod.fst).contains k = true := by
-      simp only [List.contains_eq_mem, decide_eq_true_eq]
-      exact h
-    rw [this] at hsup
-    cases hsup
-  · exact inputNames_not_var hN _ k h hv
-
-/-! ## the relation -/
-
 structure Rel (g : Drg) (gr : Graph) (sg : Spec.SGraph) : Prop where
-  dec : ∀ id sup input out, Compatible g sup input → gr.decision id input out = sg.decision id sup input out
+  dec : ∀ id sup input out, gr.decision id input sup out = sg.decision id sup input out
   bkm : ∀ id input out, gr.bkm id input out = sg.bkm id out
   svc : ∀ id input out, gr.service id input out = sg.service id input out
 
 theorem rel_diverge (g : Drg) : Rel g divergeGraph Spec.divergeGraph where
-  dec := fun _ _ _ _ _ => rfl
+  dec := fun _ _ _ _ => rfl
   bkm := fun _ _ _ => rfl
   svc := fun _ _ _ => rfl
 
@@ -268,43 +33,40 @@ theorem callBkm_rel (id : String) (input c : Ctx) : callBkm g gr id input c = Sp
   | none => rfl
   | some _ => exact hr.bkm id input c
 
-theorem callDecision_rel (id : String) (sup : List String) (input c : Ctx) (hc : Compatible g sup input) :
-    callDecision g gr id input c = Spec.callDecision g sg id sup input c := by
+theorem callDecision_rel (id : String) (sup input c : Ctx) :
+    callDecision g gr id input sup c = Spec.callDecision g sg id sup input c := by
   unfold callDecision Spec.callDecision
   cases g.findDecision id with
   | none => rfl
-  | some _ => exact hr.dec id sup input c hc
+  | some _ => exact hr.dec id sup input c
 
 end step
 
-theorem decisionClosure_rel {g : Drg} {gr : Graph} {sg : Spec.SGraph} {dp : Deps} (hr : Rel g gr sg)
-    (hs : Sound g gr dp) (hb : OutBound g dp) (env : Env) (d : Decision) (sup : List String)
-    (input out : Ctx) (hc : Compatible g sup input) :
-    decisionClosure g env gr d input out = Spec.decisionClosure g env sg d sup input out := by
+theorem decisionClosure_rel {g : Drg} {gr : Graph} {sg : Spec.SGraph} (hr : Rel g gr sg)
+    (env : Env) (d : Decision) (sup input out : Ctx) :
+    decisionClosure g env gr d input sup out = Spec.decisionClosure g env sg d sup input out := by
   unfold decisionClosure Spec.decisionClosure Spec.decisionValue
   have e1 : foldCtx (fun id c => callBkm g gr id input c) d.reqKnowledge [] =
       foldCtx (fun id c => Spec.callBkm g sg id c) d.reqKnowledge [] :=
     foldCtx_congr _ _ _ _ (fun id _ c => callBkm_rel hr id input c)
-  cases hk1 : foldCtx (fun id c => callBkm g gr id input c) d.reqKnowledge [] with
-  | panic p => rw [← e1, hk1]; rfl
-  | diverge => rw [← e1, hk1]; rfl
+  rw [e1]
+  cases foldCtx (fun id c => Spec.callBkm g sg id c) d.reqKnowledge [] with
+  | panic p => rfl
+  | diverge => rfl
   | ok k1 =>
-    rw [← e1, hk1]
     simp only []
-    have e2 : foldCtx (fun id c => dropName (callDecision g gr id input c)) d.reqDecisions
+    have e2 : foldCtx (fun id c => dropName (callDecision g gr id input sup c)) d.reqDecisions
           (g.serviceFns d.reqKnowledge k1) =
         foldCtx (fun id c => dropName (Spec.callDecision g sg id sup input c)) d.reqDecisions
           (g.serviceFns d.reqKnowledge k1) :=
-      foldCtx_congr _ _ _ _ (fun id _ c => by simp only [callDecision_rel hr id sup input c hc])
-    cases hk3 : foldCtx (fun id c => dropName (callDecision g gr id input c)) d.reqDecisions
+      foldCtx_congr _ _ _ _ (fun id _ c => by simp only [callDecision_rel hr id sup input c])
+    rw [e2]
+    cases foldCtx (fun id c => dropName (Spec.callDecision g sg id sup input c)) d.reqDecisions
         (g.serviceFns d.reqKnowledge k1) with
-    | panic p => rw [← e2, hk3]; rfl
-    | diverge => rw [← e2, hk3]; rfl
+    | panic p => rfl
+    | diverge => rfl
     | ok k3 =>
-      rw [← e2, hk3]
       simp only [Spec.decisionContext]
-      have hkeys := required_knowledge_keys hs d input k1 k3 hk1 hk3
-      rw [overwrite_restrict g sup k3 input (fun k hk => knowledgeNames_sub hb d k (hkeys k hk)) hc]
       generalize evalBoxed env d.logic _ = o
       cases o with
       | ok r => obtain ⟨v, s⟩ := r; rfl
@@ -312,22 +74,15 @@ theorem decisionClosure_rel {g : Drg} {gr : Graph} {sg : Spec.SGraph} {dp : Deps
       | diverge => rfl
 
 theorem bkmClosure_rel {g : Drg} {gr : Graph} {sg : Spec.SGraph} (hr : Rel g gr sg) (b : Bkm)
-    (hB : ∀ k ∈ b.reqKnowledge, g.findService k = none) (input out : Ctx) :
+    (input out : Ctx) :
     bkmClosure g gr b input out = Spec.bkmClosure g sg b out := by
   unfold bkmClosure Spec.bkmClosure
   have e : foldCtx (bkmRequirement g gr input) b.reqKnowledge out =
       foldCtx (Spec.bkmRequirement g sg) b.reqKnowledge out :=
-    foldCtx_congr _ _ _ _ (fun id hid c => by
+    foldCtx_congr _ _ _ _ (fun id _ c => by
       unfold bkmRequirement Spec.bkmRequirement
       rw [callBkm_rel hr id input c]
-      cases Spec.callBkm g sg id c with
-      | ok c1 =>
-        simp only []
-        unfold callService
-        rw [hB id hid]
-        simp [dropName, serviceFns, hB id hid]
-      | panic p => rfl
-      | diverge => rfl)
+      cases Spec.callBkm g sg id c <;> rfl)
   rw [e]
   cases foldCtx (Spec.bkmRequirement g sg) b.reqKnowledge out <;> rfl
 
@@ -336,87 +91,78 @@ theorem outputLoop_funext (f f' : String → Ctx → Outcome (Option String × C
   outputLoop_congr_mem f f' ids names c (fun id _ c => h id c)
 
 theorem serviceClosure_rel {g : Drg} {gr : Graph} {sg : Spec.SGraph} (hr : Rel g gr sg)
-    (hN : g.inputNamesSeparate = true) (s : Service) (input out : Ctx) :
+    (s : Service) (input out : Ctx) :
     serviceClosure g gr s input out = Spec.serviceClosure g sg s input out := by
   unfold serviceClosure Spec.serviceClosure
-  have e1 : foldCtx (fun id c => dropName (callDecision g gr id input c)) s.inputDecisions [] =
-      foldCtx (fun id c => dropName (Spec.callDecision g sg id (Ctx.keys input) input c)) s.inputDecisions [] :=
-    foldCtx_congr _ _ _ _ (fun id _ c => by
-      simp only [callDecision_rel hr id (Ctx.keys input) input c (compatible_keys g input)])
+  have e1 : foldCtx (fun id c => dropName (callDecision g gr id input [] c)) s.inputDecisions [] =
+      foldCtx (fun id c => dropName (Spec.callDecision g sg id [] input c)) s.inputDecisions [] :=
+    foldCtx_congr _ _ _ _ (fun id _ c => by simp only [callDecision_rel hr id [] input c])
   rw [e1]
-  cases foldCtx (fun id c => dropName (Spec.callDecision g sg id (Ctx.keys input) input c)) s.inputDecisions [] with
+  cases foldCtx (fun id c => dropName (Spec.callDecision g sg id [] input c)) s.inputDecisions [] with
   | panic p => rfl
   | diverge => rfl
   | ok results =>
     simp only []
-    have hc := compatible_serviceInputs hN s results input
-    have e2 : foldCtx (fun id c => dropName (callDecision g gr id (g.serviceInputs s results input) c))
-          s.encapsulated [] =
-        foldCtx (fun id c => dropName (Spec.callDecision g sg id ((g.inputDecisionVars s).map Prod.fst)
+    have e2 : foldCtx (fun id c => dropName (callDecision g gr id (g.serviceInputs s results input)
+          (g.serviceInputDecisions s results input) c)) s.encapsulated [] =
+        foldCtx (fun id c => dropName (Spec.callDecision g sg id (g.serviceInputDecisions s results input)
           (g.serviceInputs s results input) c)) s.encapsulated [] :=
-      foldCtx_congr _ _ _ _ (fun id _ c => by simp only [callDecision_rel hr id _ _ c hc])
+      foldCtx_congr _ _ _ _ (fun id _ c => by simp only [callDecision_rel hr id _ _ c])
     rw [e2]
-    cases foldCtx (fun id c => dropName (Spec.callDecision g sg id ((g.inputDecisionVars s).map Prod.fst)
+    cases foldCtx (fun id c => dropName (Spec.callDecision g sg id (g.serviceInputDecisions s results input)
           (g.serviceInputs s results input) c)) s.encapsulated [] with
     | panic p => rfl
     | diverge => rfl
     | ok c1 =>
       simp only []
-      rw [outputLoop_funext _ (fun id c => Spec.callDecision g sg id ((g.inputDecisionVars s).map Prod.fst)
-        (g.serviceInputs s results input) c) s.output [] c1 (fun id c => callDecision_rel hr id _ _ c hc)]
+      rw [outputLoop_funext _ (fun id c => Spec.callDecision g sg id (g.serviceInputDecisions s results input)
+        (g.serviceInputs s results input) c) s.output [] c1 (fun id c => callDecision_rel hr id _ _ c)]
       generalize outputLoop _ s.output [] c1 = o
       cases o with
       | ok r => obtain ⟨names, c2⟩ := r; rfl
       | panic p => rfl
       | diverge => rfl
 
-theorem rel_step {g : Drg} {gr : Graph} {sg : Spec.SGraph} {dp : Deps} (hr : Rel g gr sg)
-    (hs : Sound g gr dp) (hb : OutBound g dp) (hB : g.noBkmRequiresService = true)
-    (hN : g.inputNamesSeparate = true) (env : Env) :
+theorem rel_step {g : Drg} {gr : Graph} {sg : Spec.SGraph} (hr : Rel g gr sg) (env : Env) :
     Rel g (graphStep g env gr) (Spec.graphStep g env sg) where
   dec := by
-    intro id sup input out hc
+    intro id sup input out
     simp only [graphStep, Spec.graphStep]
     cases g.findDecision id with
     | none => rfl
-    | some d => exact decisionClosure_rel hr hs hb env d sup input out hc
+    | some d => exact decisionClosure_rel hr env d sup input out
   bkm := by
     intro id input out
     simp only [graphStep, Spec.graphStep]
-    cases hf : g.findBkm id with
+    cases g.findBkm id with
     | none => rfl
-    | some b =>
-      refine bkmClosure_rel hr b (fun k hk => ?_) input out
-      have := List.all_eq_true.mp (List.all_eq_true.mp hB b (findBkm_some hf).2) k hk
-      simpa using this
+    | some b => exact bkmClosure_rel hr b input out
   svc := by
     intro id input out
     simp only [graphStep, Spec.graphStep]
     cases g.findService id with
     | none => rfl
-    | some s => exact serviceClosure_rel hr hN s input out
+    | some s => exact serviceClosure_rel hr s input out
 
-theorem rel_graphAt (g : Drg) (hB : g.noBkmRequiresService = true) (hN : g.inputNamesSeparate = true)
-    (env : Env) (n : Nat) :
+theorem rel_graphAt (g : Drg) (env : Env) (n : Nat) :
     Rel g (graphAt g env divergeGraph n) (Spec.graphAt g env Spec.divergeGraph n) := by
   induction n with
-  | zero => exact rel_step (rel_diverge g) (sound_diverge g) (outBound_bot g) hB hN env
-  | succ n ih => exact rel_step ih (sound_graphAt g env n) (outBound_depsAt g n) hB hN env
+  | zero => exact rel_step (rel_diverge g) env
+  | succ n ih => exact rel_step ih env
 
 theorem spec_level_graph (base : Env) (g : Drg) (G ff : Nat) :
     (Spec.level base g G ff).graph = Spec.graphAt g (Spec.level base g G ff).env Spec.divergeGraph := by
   cases ff <;> rfl
 
 /-- The evaluators of the model and of the specification coincide at every level. -/
-theorem level_env_rel (base : Env) (g : Drg) (hB : g.noBkmRequiresService = true)
-    (hN : g.inputNamesSeparate = true) (G ff : Nat) :
+theorem level_env_rel (base : Env) (g : Drg) (G ff : Nat) :
     (level base g G ff).env = (Spec.level base g G ff).env := by
   induction ff with
   | zero => rfl
   | succ ff ih =>
     simp only [level, Spec.level]
     rw [level_graph' base g G ff, spec_level_graph base g G ff, ← ih]
-    have hr := rel_graphAt g hB hN (level base g G ff).env G
+    have hr := rel_graphAt g (level base g G ff).env G
     have hc : callBody (level base g G ff).env (graphAt g (level base g G ff).env divergeGraph G) =
         Spec.callBody (level base g G ff).env (Spec.graphAt g (level base g G ff).env Spec.divergeGraph G) := by
       funext body
@@ -429,16 +175,6 @@ theorem level_env_rel (base : Env) (g : Drg) (hB : g.noBkmRequiresService = true
         funext s
         rw [hr.svc id (Scope.peek s) []]
     rw [hc]
-
-theorem compatible_of_disjoint {g : Drg} {input : Ctx} (h : g.inputsDisjointFromDecisionNames input = true) :
-    Compatible g [] input := by
-  intro k hk _
-  apply Ctx.get_eq_none_of_not_mem
-  intro hm
-  obtain ⟨e, he, rfl⟩ := List.mem_map.mp hm
-  have := List.all_eq_true.mp h e he
-  simp only [Bool.not_eq_true', List.contains_eq_mem, decide_eq_false_iff_not] at this
-  exact this hk
 
 theorem conf_any (a : FType) : FType.conf a .any = true := by
   rw [FType.conf.eq_def]
